@@ -5,22 +5,31 @@ import RtenVerif.Lemmas.ExecutorStepRefine
 namespace RtenVerif.Executor
 open RtenVerif.Graph
 
-theorem canTake_nocaps {V : Type} {r : Run V} {st : St V} (hc : NoCaps st) {id : Nat}
+theorem canTake_noTake {V : Type} {r : Run V} {st : St V} (hc : NoTake st) {id : Nat}
     (h : canTake r st id = true) : st.rc id = 1 ∧ st.temps id ≠ none := by
-  unfold canTake capTakeable at h
-  rw [hc id] at h
+  have hcap : capTakeable st id = false := by
+    unfold capTakeable
+    cases hs : st.caps id with
+    | none => rfl
+    | some p =>
+      obtain ⟨x, b⟩ := p
+      have := hc id x b hs
+      subst this; rfl
+  unfold canTake at h
+  rw [hcap] at h
   simp only [Bool.and_false, Bool.or_false, Bool.and_eq_true, beq_iff_eq,
     Option.isSome_iff_ne_none] at h
   exact ⟨h.1, h.2⟩
 
 /-- From a `Sim` state the executor's step and the naive step have the same outcome. -/
-theorem step_refines {V : Type} {ops : Ops V} {r : Run V} {total : Nat → Nat} {i : Nat}
+theorem step_refines {V : Type} {ops : Ops V} {r : Run V} {caps0 : Nat → Option (V × Bool)}
+    {total : Nat → Nat} {i : Nat}
     {rest outs : List Nat} {st : St V} {E : Nat → Option V} (hwf : WF r)
-    (hcap : r.g.captures = []) (hct : Contract ops r.g)
-    (hs : Sim r total (i :: rest) outs st E) :
+    (hcw : CapsWF r caps0) (hct : Contract ops r.g)
+    (hs : Sim r caps0 total (i :: rest) outs st E) :
     match step ops r st i with
-    | .ok (st', _) => ∃ E', naiveStep ops r nocap E i = .ok E' ∧ Sim r total rest outs st' E'
-    | .error e => naiveStep ops r nocap E i = .error e := by
+    | .ok (st', _) => ∃ E', naiveStep ops r caps0 E i = .ok E' ∧ Sim r caps0 total rest outs st' E'
+    | .error e => naiveStep ops r caps0 E i = .error e := by
   cases hop : getOp r.g i with
   | none => simp [step, naiveStep, hop]
   | some op =>
@@ -33,7 +42,7 @@ theorem step_refines {V : Type} {ops : Ops V} {r : Run V} {total : Nat → Nat} 
       · rw [if_pos hcond]
         simp only [Bool.and_eq_true, List.all_eq_true] at hcond
         have hall : ∀ c ∈ candidates ops i op st.temps, st.rc c.2 = 1 ∧ st.temps c.2 ≠ none :=
-          fun c hc => canTake_nocaps hs.nocaps (hcond.1.2 c hc)
+          fun c hc => canTake_noTake (hs.noTake hcw) (hcond.1.2 c hc)
         have hnd : ((candidates ops i op st.temps).map (fun c => c.2)).Nodup := by
           apply nodup_snd_of_fst (candidates_fst_nodup i op st.temps (hct.idxNodup i))
           intro a ha b hb hab
@@ -54,15 +63,16 @@ theorem step_refines {V : Type} {ops : Ops V} {r : Run V} {total : Nat → Nat} 
     obtain ⟨st1, taken, htake⟩ := htake_ex
     cases hbv : (if ops.isSubgraph i = true then takeByValue r st1 (capDeps r.g op) else (st1, [])) with
     | mk st2 byVal =>
-    have T := takeFacts' htake hbv hs.nocaps
+    have T := takeFacts' htake hbv (hs.noTake hcw)
     rw [step_unfold hop htake hbv]
     -- inputs
-    have HT : ∀ p v, (p, v) ∈ taken → ∃ id, op.inputs[p]? = some (some id) ∧ val r E id = some v := by
+    have HT : ∀ p v, (p, v) ∈ taken → ∃ id, op.inputs[p]? = some (some id) ∧
+        valC r caps0 E id = some v := by
       intro p v hpv
       obtain ⟨id, h1, _, _, h4⟩ := T.htaken p v hpv
-      exact ⟨id, h1, (hs.agree id v h4).2.2⟩
+      exact ⟨id, h1, valC_of_val (hs.agree id v h4).2.2⟩
     have HN : ∀ p id, p ∉ taken.map (fun t => t.1) → op.inputs[p]? = some (some id) →
-        lookupInput r st2 id = val r E id := by
+        lookupInput r st2 id = valC r caps0 E id := by
       intro p d hp hd
       have h2 : st2.temps d = st.temps d :=
         T.untouched p d hp hd (fun hrc hne => hs.count_le_one hop hrc hne)
@@ -77,24 +87,24 @@ theorem step_refines {V : Type} {ops : Ops V} {r : Run V} {total : Nat → Nat} 
         rw [opDeps_eq]; exact List.mem_append_left _ (mem_opInputs hd)
       have := List.count_pos_iff.mpr this
       omega
-    have IS := inputs_sim r E st2 taken op HT HN op.inputs 0 (by intro k; simp)
+    have IS := inputs_sim r (valC r caps0 E) st2 taken op HT HN op.inputs 0 (by intro k; simp)
     simp only [naiveStep, hop]
     cases hci : collectInputs r st2 (taken.map (fun t => t.1)) op.inputs 0 with
     | none =>
       rw [hci] at IS
-      have IS' : naiveInputs (naiveLook r nocap E) op.inputs = none := IS
+      have IS' : naiveInputs (naiveLook r caps0 E) op.inputs = none := IS
       simp only [IS']
     | some ins =>
       rw [hci] at IS
       obtain ⟨full, hf, hfill⟩ := IS
-      have hf' : naiveInputs (naiveLook r nocap E) op.inputs = some full := hf
+      have hf' : naiveInputs (naiveLook r caps0 E) op.inputs = some full := hf
       simp only [hf']
       -- the operator call
       have hres : (if (!taken.isEmpty) = true then ops.runInPlace i taken ins
           else if ops.isSubgraph i = true then
             ops.run i ins ((capDeps r.g op).map (capView r st2 byVal))
           else ops.run i ins []) =
-          ops.run i full (if ops.isSubgraph i = true then (capDeps r.g op).map (naiveLook r nocap E)
+          ops.run i full (if ops.isSubgraph i = true then (capDeps r.g op).map (naiveLook r caps0 E)
             else []) := by
         by_cases htk : taken = []
         · subst htk
@@ -106,7 +116,7 @@ theorem step_refines {V : Type} {ops : Ops V} {r : Run V} {total : Nat → Nat} 
             congr 1
             apply List.map_congr_left
             intro d hd
-            exact capView_eq hcap hs hop T d hd
+            exact capView_eq hcw hs hop T d hd
           · have hsub' : ops.isSubgraph i = false := by simpa using hsub
             simp only [hsub', Bool.false_eq_true, if_false]
         · have hne : (!taken.isEmpty) = true := by
@@ -124,7 +134,7 @@ theorem step_refines {V : Type} {ops : Ops V} {r : Run V} {total : Nat → Nat} 
           exact h3
       rw [hres]
       cases hrun : ops.run i full (if ops.isSubgraph i = true then
-          (capDeps r.g op).map (naiveLook r nocap E) else []) with
+          (capDeps r.g op).map (naiveLook r caps0 E) else []) with
       | none => simp only
       | some vs =>
         simp only
@@ -146,7 +156,7 @@ theorem step_refines {V : Type} {ops : Ops V} {r : Run V} {total : Nat → Nat} 
                   (opDeps r.g op)).2 }) := by
             rw [step_unfold hop htake hbv, hci]
             simp only [hres, hrun, hlen, if_false]
-          exact Sim.step' hwf hstep hs hop T (stored := (storeOutputs r st2.temps op.outputs vs).2)
+          exact Sim.step' hwf hcw hstep hs hop T (stored := (storeOutputs r st2.temps op.outputs vs).2)
             (released := (releaseLoop r
               { st2 with temps := (storeOutputs r st2.temps op.outputs vs).1 } (opDeps r.g op)).2)
             rfl rfl
